@@ -147,6 +147,13 @@ impl<const B: Word> Repr<B> {
             }
         };
 
+        if exponent.checked_add(ndigits as isize).is_none() {
+            // normalisation moves the trailing zero digits of the significand into the exponent; next to
+            // isize::MAX that overflows: the number is not representable, report it like any other
+            // scale that does not fit
+            let shift = Repr::<B>::new(significand.clone().into(), 0).exponent;
+            exponent.checked_add(shift).ok_or(ParseError::InvalidDigit)?;
+        }
         let repr = Repr::new(sign * significand, exponent);
         Ok((repr, ndigits))
     }
